@@ -214,6 +214,19 @@ def x_alloc2d(n: size, m: size, x: f32[n, m], y: f32[m, n]):
                 y[j, i] = t[j, 0]
 ''')
 
+_add("x_else_alloc", '''
+@proc
+def x_else_alloc(n: size, x: f32[n], y: f32[n]):
+    for i in seq(0, n):
+        if i == 0:
+            y[i] = x[i]
+        else:
+            u: f32[n]
+            for j in seq(0, n):
+                u[j] = x[j] + x[i]
+            y[i] = u[i - 1] + u[i]
+''')
+
 _add("x_cfg_types", '''
 @config
 class CfgT:
@@ -789,9 +802,9 @@ def compile_unit(unit, inputs, workdir):
         f.write(CUSTOM_MALLOC_H)
     try:
         r = subprocess.run(["gcc", *CFLAGS, "-I.", "p.c", "main.c", "-o", "t.exe", "-lm"], cwd=workdir,
-                           capture_output=True, text=True, timeout=120)
+                           capture_output=True, text=True, timeout=1500)
     except subprocess.TimeoutExpired:
-        return False, "gcc timeout", main
+        return None, "gcc timeout", main
     return r.returncode == 0, r.stderr, main
 
 
@@ -800,7 +813,7 @@ def run_exe(workdir, k):
     env["ASAN_OPTIONS"] = "detect_leaks=1:abort_on_error=0:exitcode=97:allocator_may_return_null=0"
     env["UBSAN_OPTIONS"] = "print_stacktrace=0"
     try:
-        r = subprocess.run(["./t.exe", str(k)], cwd=workdir, capture_output=True, text=True, timeout=60, env=env)
+        r = subprocess.run(["./t.exe", str(k)], cwd=workdir, capture_output=True, text=True, timeout=600, env=env)
     except subprocess.TimeoutExpired:
         return None, "", "timeout"
     return r.returncode, r.stdout, r.stderr
@@ -962,11 +975,14 @@ def check_proc(p, I, rng, counts, n_inputs=3, tag="", workdir=None, keep=None, s
         judged.append((i, r))
     own_tmp = None
     if workdir is None:
-        own_tmp = tempfile.TemporaryDirectory(prefix="ccpipe_")
+        own_tmp = tempfile.TemporaryDirectory(prefix="ccpipe_", ignore_cleanup_errors=True)
         workdir = own_tmp.name
     try:
         ok, diag, main = compile_unit(unit, [i for i, _ in judged], workdir)
         cnt("gcc-runs")
+        if ok is None:
+            cnt("gcc-timeout")   # infrastructure (overloaded machine), not a verdict
+            return findings
         base = {"proc": unit.name, "tag": tag, "c": unit.c, "h": unit.h}
         pdiag = [l for l in diag.splitlines() if re.match(r"p\.[ch]:\d+", l) and ("error:" in l or "warning:" in l)]
         for l in pdiag:
@@ -1202,10 +1218,10 @@ def floor_div_helper_table(exo_mod):
         with open(os.path.join(d, "fd.c"), "w") as f:
             f.write(src)
         r = subprocess.run(["gcc", "-O0", "-fsanitize=undefined", "-fno-sanitize-recover=all", "fd.c", "-o", "fd.exe"],
-                           cwd=d, capture_output=True, text=True, timeout=120)
+                           cwd=d, capture_output=True, text=True, timeout=1500)
         if r.returncode != 0:
             return None, r.stderr[:500]
-        r = subprocess.run(["./fd.exe"], cwd=d, capture_output=True, text=True, timeout=60)
+        r = subprocess.run(["./fd.exe"], cwd=d, capture_output=True, text=True, timeout=600)
         if r.returncode != 0:
             return None, r.stderr[:500]
         vals = r.stdout.split()
@@ -1297,6 +1313,11 @@ def run(ctx, prop):
     for k in range(n_gen):
         nm, src = gen_program(grng, k, allow_alias=(k % 6 == 0))
         progs[nm] = src
+    only = os.environ.get("VERIF_CC_ONLY")
+    if only:   # development aid (mutation experiments on a loaded machine): restrict the program set
+        keep = set(only.split(","))
+        progs = {k: v for k, v in progs.items() if k in keep}
+        ctx.assumptions.append(f"VERIF_CC_ONLY set: program set restricted to {sorted(keep)}")
     saved = dict(pool.POOL)
     pool.POOL.clear()
     pool.POOL.update(progs)
